@@ -683,6 +683,9 @@ func (in *Interp) loadIdx(arr *Cell, idx *Term) Value {
 			var groups []*grp
 			byV := map[*Term]*grp{}
 			for k := lo; k <= hi; k++ {
+				if arr.kids[k].rel {
+					in.usedAfterPut(arr.kids[k])
+				}
 				v := arr.kids[k].v.(*Term)
 				g := byV[v]
 				c := Eq(idx, Const(idx.sort, uint64(k)))
@@ -707,6 +710,9 @@ func (in *Interp) loadIdx(arr *Cell, idx *Term) Value {
 		}
 		var groups []*grp
 		for k := lo; k <= hi; k++ {
+			if arr.kids[k].rel {
+				in.usedAfterPut(arr.kids[k])
+			}
 			v := arr.kids[k].v
 			c := Eq(idx, Const(idx.sort, uint64(k)))
 			found := false
@@ -1197,6 +1203,9 @@ func (in *Interp) convert(v Value, from, to types.Type) Value {
 			off := int(in.concretize(x.off, "string(bytes) off"))
 			b := make([]*Term, n)
 			for i := 0; i < n; i++ {
+				if x.arr.kids[off+i].rel {
+					in.usedAfterPut(x.arr.kids[off+i])
+				}
 				b[i] = term(x.arr.kids[off+i].v)
 			}
 			return StringV{b: b}
